@@ -91,6 +91,11 @@ def mesh_area(verts, faces):
 # ---------------------------------------------------------------------------
 
 
+class DegenerateInput(Exception):
+    """The point set is closer to degeneracy than the oracle's band (facets do not close up):
+    such inputs are outside the generator margins and are not judged."""
+
+
 class Hull:
     """Facets of a point set in convex position (or not: ``on_hull`` tells)."""
 
@@ -195,7 +200,10 @@ def hull_facets(P, band=1e-9, brute_max=36):
         fl.append(f)
         nl.append(nn)
         ol.append(float(np.mean(pts @ nn)))
-    return Hull(P, fl, np.array(nl), np.array(ol))
+    h = Hull(P, fl, np.array(nl), np.array(ol))
+    if not h.closed() or len(h.on_hull) - len(h.edge_faces) + len(fl) != 2:
+        raise DegenerateInput("facets of the supporting planes do not form a closed surface (near-coplanar or near-duplicate points)")
+    return h
 
 
 def in_convex_position(P, margin):
